@@ -9,7 +9,7 @@ import numpy as np
 
 ID = "C17"
 SHARDS = {"quick": 8, "thorough": 16}
-BUDGET = {"quick": 40, "thorough": 300}
+BUDGET = {"quick": 300, "thorough": 1800}
 RULE = ("orders 1..10 (0 and 11 for rejection) x coefficient vectors of any sign "
         "with sum|phi| <= 1.5 x means / initial values of any sign x series of "
         "length 0..5000 with NaN anywhere incl. the first `order` steps x default "
